@@ -40,10 +40,14 @@ CLAIMED.update({
             "every Porter-Duff/ADD combiner, unified and component alpha, early-outs included, proved equal to the Render equations "
             "(round-to-nearest products, saturating sums) for all pixel values; lane theorems for all UN8x4 macros; "
             "pixman_image_composite32 replayed through the model on ~1.5e7 pixel cases over 21 formats and 2 implementation chains "
-            "plus an independent C spec oracle.",
-            TB + "Partial: the seven non-MULTIPLY integer blend modes only structurally (+0.5-step oracle); operators/formats evaluated "
-            "in floating point (SATURATE, DISJOINT/CONJOINT, dodge/burn/soft-light/HSL, 10-bit/sRGB/float formats) are not covered by "
-            "theorems; SIMD loop structure exercised, not modelled.", TECH, "DESIGN.md 6/C01"),
+            "plus an independent C spec oracle. Float-evaluated part: exact-rational model of pixman-combine-float.c (all 63 operators, "
+            "unified/CA) with theorems Model = Render/PDF equations (factor table incl. alpha 0/1 edges, 11 separable modes, "
+            "SetSat/SetLum/ClipColor, HSL for alpha>0) and a one-quantisation-step correspondence on 10-bit/sRGB/float formats and "
+            "division operators (regenerated to_linear and needs_division tables).",
+            TB + "Partial: the seven non-MULTIPLY integer blend modes only structurally (+0.5-step oracle); for operators/formats evaluated "
+            "in floating point the theorems are over exact rationals (binary32 rounding not modelled, float destinations judged at 2^-16, "
+            "sensitive modes on non-premultiplied or nearly-grey operands not judged: ~9% of requests); SIMD loop structure exercised, "
+            "not modelled.", TECH, "DESIGN.md 6/C01"),
     "C09": ("proof",
             "operator_table and optimize_operator regenerated from pixman.c; for every row and opacity cell (except SATURATE) the "
             "replacement operator is proved to give identical channels under that opacity assumption, for all pixels; mask elision "
